@@ -249,9 +249,9 @@ fn run_proto(f32_: bool, l8: usize, os: usize, window: u8, fc: f32, seed: u64) -
         return o;
     }
     // stopband: a fixed grid over [edge, os] plus random points, concentrated just above the edge
-    // the dense scan finds the sidelobe peaks right behind the guard band, which reach up to 2 dB above the
-    // stated figure (the edge is located by a fitted approximation): 3 dB measurement tolerance + 3 dB
-    let rej = undb(-(REJ_DB[w] - 3.0)).max(single);
+    // exact response of the table: no measurement tolerance is needed; the stated figure itself is used (calibrated:
+    // it holds from the fitted edge on with at least 2.9 dB to spare for every length and window)
+    let rej = undb(-REJ_DB[w]).max(single);
     let top = os as f64;
     let mut worst = f64::MIN;
     // no guard band here: on the exact response of the table the fitted edge is accurate (the stated figures hold
@@ -337,7 +337,7 @@ impl Property for C02 {
         "C02"
     }
     fn rule(&self) -> String {
-        "cases = sinc or FFT configuration as in C01 and one unit tone between the stopband edge (plus a guard band of 0.25 transition half-widths) and the input Nyquist, down- and up-sampling; the output lines of the tone and of its images are predicted, fitted by least squares (lines closer than 8/M merged with a coherent-sum allowance) and each must be below the stated rejection figure - 3 dB measurement tolerance, as must the remainder (FFT: 100 dB). Plus: the -6.02 +- 0.1 dB point at f_cutoff for ratio >= 1 (generated), and calculate_cutoff on all 12 102 (length 32..=2048, window) pairs: inside (0,1), strictly increasing, f32 == f64 (forced, exhaustive); and the frequency response of the filter table itself (read out tap by tap through the public scalar kernel, evaluated by DTFT on 600 stopband points up to the oversampled Nyquist (stated figure - 6 dB: the dense scan finds sidelobe peaks behind the guard band up to 2 dB above the stated figure), 100 passband points and at the cutoff). non-trivial = every case with a non-empty stopband. distinct = distinct case JSON digest.".into()
+        "cases = sinc or FFT configuration as in C01 and one unit tone between the stopband edge (plus a guard band of 0.25 transition half-widths) and the input Nyquist, down- and up-sampling; the output lines of the tone and of its images are predicted, fitted by least squares (lines closer than 8/M merged with a coherent-sum allowance) and each must be below the stated rejection figure - 3 dB measurement tolerance, as must the remainder (FFT: 100 dB). Plus: the -6.02 +- 0.1 dB point at f_cutoff for ratio >= 1 (generated), and calculate_cutoff on all 12 102 (length 32..=2048, window) pairs: inside (0,1), strictly increasing, f32 == f64 (forced, exhaustive); and the frequency response of the filter table itself (read out tap by tap through the public scalar kernel, evaluated by DTFT on 600 stopband points up to the oversampled Nyquist (the stated figure itself, no tolerance and no guard band: calibrated margin 2.9 dB), 100 passband points and at the cutoff). non-trivial = every case with a non-empty stopband. distinct = distinct case JSON digest.".into()
     }
     fn assumptions(&self) -> Vec<String> {
         vec![
